@@ -308,7 +308,8 @@ static int pipe_get(struct sk_obj *o, unsigned char *b, int n)
 int sk_child_write(int pi, int fd, int n, int tag, long *offp)
 {
   struct sk_proc *p = &K->proc[pi];
-  if (p->state != PS_RUNNING || p->fd[fd].ofd < 0) return -1;
+  /* (a process that has ended holds descriptors only on behalf of a descendant that inherited them: that one writes) */
+  if ((p->state != PS_RUNNING && p->state != PS_ZOMBIE && p->state != PS_REAPED) || p->fd[fd].ofd < 0) return -1;
   struct sk_ofd *f = &K->ofd[p->fd[fd].ofd];
   struct sk_obj *o = &K->obj[f->obj];
   if (f->acc == 0) return -1;
